@@ -12,7 +12,23 @@ use std::ffi::CString;
 
 const CANARY: u32 = 0xA5A5_A5A5;
 
-fn c_tokenizer(ws: &[Vec<u8>], eos: u32) -> *mut LlgTokenizer {
+/// greedy tokenisation over a TokTrie passed as user data: the canonical tokenizer callback of the C API
+extern "C" fn greedy_cb(user: *const std::os::raw::c_void, bytes: *const u8, len: usize, out: *mut u32, out_len: usize) -> usize {
+    let trie = unsafe { &*(user as *const llguidance::toktrie::TokTrie) };
+    let s = if len == 0 { &[][..] } else { unsafe { std::slice::from_raw_parts(bytes, len) } };
+    let toks = trie.greedy_tokenize(s);
+    for (i, t) in toks.iter().enumerate().take(out_len) {
+        unsafe { *out.add(i) = *t };
+    }
+    toks.len()
+}
+
+pub(crate) fn c_tokenizer(ws: &[Vec<u8>], eos: u32) -> *mut LlgTokenizer {
+    c_tokenizer_with(ws, eos, std::ptr::null())
+}
+
+/// with a trie: the tokenizer is canonical (tokenize_fn set), as make_env(.., true) on the Rust side
+pub(crate) fn c_tokenizer_with(ws: &[Vec<u8>], eos: u32, trie: *const llguidance::toktrie::TokTrie) -> *mut LlgTokenizer {
     let lens: Vec<u32> = ws.iter().map(|w| w.len() as u32).collect();
     let bytes: Vec<u8> = ws.iter().flat_map(|w| w.clone()).collect();
     let no_slices: [*const std::os::raw::c_char; 1] = [std::ptr::null()];
@@ -23,16 +39,16 @@ fn c_tokenizer(ws: &[Vec<u8>], eos: u32) -> *mut LlgTokenizer {
         token_bytes: bytes.as_ptr(),
         tokenizer_json: std::ptr::null(),
         tokenize_assumes_string: false,
-        tokenize_fn: None,
-        use_approximate_greedy_tokenize_fn: true,
-        tokenize_user_data: std::ptr::null(),
+        tokenize_fn: if trie.is_null() { None } else { Some(greedy_cb) },
+        use_approximate_greedy_tokenize_fn: trie.is_null(),
+        tokenize_user_data: trie as *const std::os::raw::c_void,
         slices: no_slices.as_ptr(),
     };
     let mut err = vec![0i8; 256];
     unsafe { llg_new_tokenizer(&init, err.as_mut_ptr() as *mut _, err.len()) }
 }
 
-fn c_init(tok: *const LlgTokenizer) -> LlgConstraintInit {
+pub(crate) fn c_init(tok: *const LlgTokenizer) -> LlgConstraintInit {
     let mut init: LlgConstraintInit = unsafe { std::mem::zeroed() };
     llg_constraint_init_set_defaults(&mut init, tok);
     init.log_stderr_level = 0;
@@ -240,9 +256,12 @@ pub fn matcher_case(rng: &mut Rng, out: &mut Out) {
     let (ws, eos) = sized_vocab(rng, size);
     let v = ws.len();
     let lark = g.to_lark();
-    let env = make_env(&ws, eos, false);
+    // half of the cases with a canonical tokenizer on both sides (only then are there fast-forward tokens)
+    let canonical = rng.chance(1, 2);
+    let env = make_env(&ws, eos, canonical);
     let Ok(mut rm) = new_matcher(&env, &lark, &[]) else { return };
-    let tok = c_tokenizer(&ws, eos);
+    let trie_box: Box<llguidance::toktrie::TokTrie> = Box::new(env.tok_trie().clone());
+    let tok = c_tokenizer_with(&ws, eos, if canonical { &*trie_box as *const _ } else { std::ptr::null() });
     let init = c_init(tok);
     let ctype = CString::new("lark").unwrap();
     let clark = CString::new(lark.clone()).unwrap();
@@ -333,15 +352,23 @@ pub fn matcher_case(rng: &mut Rng, out: &mut Out) {
         }
         // ff tokens into a short buffer
         let ff = rm.compute_ff_tokens();
-        let olen = rng.below(3);
-        let mut obuf = vec![CANARY; olen + 2];
+        // buffer lengths around the number of forced tokens
+        let olen = if ff.is_empty() || rng.chance(1, 3) { rng.below(3) } else { (ff.len() + rng.below(3)).saturating_sub(1) };
+        if !ff.is_empty() {
+            out.count("ff_token_queries_nonempty", 1);
+        }
+        // a wide guard zone behind the buffer: an overrun is reported, not suffered
+        let mut obuf = vec![CANARY; olen + 64];
         let n = unsafe { llg_matcher_compute_ff_tokens(cmr, obuf.as_mut_ptr(), olen) };
-        if n != ff.len().min(olen) as i32 || obuf[..n.max(0) as usize] != ff[..n.max(0) as usize] || obuf[olen] != CANARY {
+        let nn = (n.max(0) as usize).min(obuf.len());
+        if obuf[olen..].iter().any(|&w| w != CANARY) {
+            viol.push(format!("llg_matcher_compute_ff_tokens(len {olen}) wrote behind the caller's buffer; Rust ff tokens = {:?}", ff));
+        } else if n != ff.len().min(olen) as i32 || obuf[..nn] != ff[..nn.min(ff.len())] {
             viol.push(format!("llg_matcher_compute_ff_tokens(len {olen}) = {n} {:?}, Rust = {:?}", &obuf[..olen], ff));
         }
         out.case(
             tagged("ffcopy", vec![ints(&ff), int(olen)]),
-            tagged("ok", vec![ints(&obuf[..n.max(0) as usize]), int(n)]),
+            tagged("ok", vec![ints(&obuf[..nn]), int(n)]),
             false,
         );
         if rng.chance(1, 4) && !hist.is_empty() {
@@ -362,6 +389,10 @@ pub fn matcher_case(rng: &mut Rng, out: &mut Out) {
     unsafe {
         llg_free_matcher(cm);
         llg_free_tokenizer(tok);
+    }
+    drop(trie_box);
+    if canonical {
+        out.count("matcher_sessions_canonical", 1);
     }
     for x in viol {
         out.violation(&x, format!("vocab_size={v} eos={eos}\n--- lark ---\n{lark}"));
